@@ -283,8 +283,14 @@ private theorem selsOk_kept (o n : SchemaD) (h : diffSchema o n 2 = []) (wo : Du
     exact ⟨selOk_kept o n h wo wn doc vars T x hx.1, selsOk_kept o n h wo wn doc vars T xs hx.2⟩
 end
 
-/-- **Operations stay valid.** If no BREAKING change is reported between `o` and `n`, every document
-    that is valid on `o` (declarative `ValidDoc`) is valid on `n`, for all documents and variables. -/
+/-- **Operations stay valid - STRUCTURAL validity only (PARTIAL; the name is kept because the evidence refers to it).**
+    If no BREAKING change is reported between `o` and `n`, every document that satisfies `ValidDoc` on `o` satisfies it
+    on `n`, for all documents and variables. `ValidDoc` is the structural predicate of C05 (Spec/ValidDoc.lean): fields
+    exist on their parent type, leaf ⇔ no sub-selection, type conditions composite, spreads defined, fragments
+    acyclic, operations rooted. It OMITS arguments, argument values, variable positions, directives and
+    OverlappingFieldsCanBeMerged. The clause as worded is `OperationsStayValidFull` (Props/C20_full.lean), REFUTED by
+    `operations_stay_valid_full_refuted` (findings G4, G6); what holds of the validator model is
+    `operations_stay_valid_all_but_overlap_partial`. -/
 theorem operations_stay_valid (o n : SchemaD) (h : diffSchema o n 2 = []) (wo : DumpWf o) (wn : DumpWf n)
     (doc : Doc) (vars : Vars) (hv : ValidDoc o doc vars) : ValidDoc n doc vars := by
   unfold ValidDoc validDocB at hv ⊢
